@@ -115,6 +115,31 @@ def check_pred(case):
                 labels=labels)
 
 
+# ------------------------------------------------------------ clause: many classes
+def _many_class_cases(tier):
+    """Class sets well beyond the handful the random clause draws (letters, ids, vocabularies):
+    sizes around the ranges of 8- and 16-bit index types."""
+    sizes = [12, 16, 26, 100, 127, 128, 130, 182, 256, 300] if tier == "quick" else \
+        [11, 12, 13, 16, 17, 26, 50, 100, 127, 128, 129, 130, 181, 182, 200, 255, 256, 257, 300, 1000]
+    for K in sizes:
+        for kind in ("int", "str"):
+            cls = [3 * i - 7 for i in range(K)] if kind == "int" else [f"c{i:04d}" for i in range(K)]
+            n = 3 * K
+            lab = [(i * 7) % K for i in range(n)]
+            pred = [(lab[i] + (3 * (i // 5) + 1 if i % 5 == 0 else 0)) % K for i in range(n)]  # 80% correct
+            for given in (False, True):
+                yield dict(kind=kind, classes=cls, lab=lab, pred=pred, wk="none" if K % 2 else "int",
+                           w=None if K % 2 else [1 + i % 3 for i in range(n)],
+                           order=[(i * 5 + 1) % K if K % 5 else i for i in range(K)] if given else None, K=K)
+
+
+def check_many(case):
+    out = check_pred(case)
+    out["labels"] = [f"K:{case['K']}", f"kind:{case['kind']}"]
+    out["nontrivial"] = True
+    return out
+
+
 # ------------------------------------------------------------ clause: renderings
 @st.composite
 def _render_cases(draw):
@@ -197,15 +222,23 @@ PER_CLASS_CI = ["tpr_ci", "tnr_ci", "fpr_ci", "fnr_ci", "tar_ci", "frr_ci", "trr
 _BIN = {"class_accuracy": "accuracy", "class_error_rate": "error_rate"}
 
 
+_NARROW = {"uint8": 255, "int16": 32767, "int32": 2**31 - 1}
+
+
 @st.composite
 def _ova_cases(draw):
     kind, cls = draw(class_sets())
     K = len(cls)
     lead = draw(st.sampled_from(LEADS))
     n = gen.shape_size(lead) * K * K
-    dtype = draw(st.sampled_from(["int", "int", "float"]))
-    ent = (st.one_of(st.just(0), st.integers(0, 12), st.integers(0, 10**6)) if dtype == "int"
-           else st.one_of(st.just(0.0), st.integers(0, 40).map(lambda x: x / 4)))
+    dtype = draw(st.sampled_from(["int", "int", "float", "float", "uint8", "int16", "int32"]))
+    if dtype in _NARROW:
+        # counts stored in a narrow integer dtype: every entry fits, row / column sums and the trace need not
+        top_ = _NARROW[dtype]
+        ent = st.one_of(st.just(0), st.integers(0, 12), st.integers(0, top_), st.integers(top_ // 2, top_))
+    else:
+        ent = (st.one_of(st.just(0), st.integers(0, 12), st.integers(0, 10**6)) if dtype == "int"
+               else st.one_of(st.just(0.0), st.integers(0, 40).map(lambda x: x / 4)))
     flat = draw(st.lists(ent, min_size=n, max_size=n))
     scale = 1.0
     if dtype == "float":
@@ -240,10 +273,11 @@ def check_ova(case):
     cls = case["classes"]
     K = len(cls)
     lead = tuple(case["lead"])
-    dt = np.int64 if case["dtype"] == "int" else np.float64
+    dt = np.float64 if case["dtype"] == "float" else np.int64
     A = np.asarray(case["flat"], dtype=dt).reshape(lead + (K, K))
-    A0 = A.copy()
-    c = ConfusionMatrix(matrix=A, classes=cls)
+    A_in = A.astype(case["dtype"]) if case["dtype"] in _NARROW else A  # as stored by the caller
+    A0 = A_in.copy()
+    c = ConfusionMatrix(matrix=A_in, classes=cls)
     o = c.one_vs_all()
     om = o.matrix
     require(om.shape == lead + (K, 2, 2), "ova:shape", f"{om.shape}")
@@ -251,7 +285,7 @@ def check_ova(case):
     # reference, computed cell by cell in Python
     Af = A.reshape((-1, K, K)).tolist()
     of = om.reshape((-1, K, 2, 2)).tolist()
-    exact_sums = case["dtype"] == "int" or case.get("scale", 1.0) == 1.0
+    exact_sums = case["dtype"] != "float" or case.get("scale", 1.0) == 1.0
 
     def eq(a, b, total):
         # integer and quarter-valued matrices sum exactly; scaled float matrices to rounding error,
@@ -282,7 +316,7 @@ def check_ova(case):
                                  + A[..., j, j])
     perm = list(case["perm"])
     Ap = A[..., perm, :][..., :, perm]
-    cp = ConfusionMatrix(matrix=Ap, classes=[cls[i] for i in perm])
+    cp = ConfusionMatrix(matrix=Ap.astype(A_in.dtype), classes=[cls[i] for i in perm])
     alpha = case["alpha"]
     for name in PER_CLASS + PER_CLASS_CI:
         is_ci = name.endswith("_ci")
@@ -340,7 +374,7 @@ def check_ova(case):
             require(bool(np.all(np.abs(a_[clear] - b_[clear]) <= 1e-9)), "pc:scale-dependence",
                     lambda: f"{name} changes when all entries are divided by {case['scale']}: "
                             f"{a_.tolist()} vs {b_.tolist()}")
-    require(np.array_equal(A, A0), "ova:mutated-input", "")
+    require(np.array_equal(A_in, A0), "ova:mutated-input", "")
     off = bool(np.any(A.sum((-1, -2)) - np.trace(A, axis1=-2, axis2=-1) != 0)) if A.size else False
     labels = [f"K:{K}", f"rank:{len(lead)}"] + (["size0-axis"] if 0 in lead else [])
     return dict(nontrivial=K >= 3 and off and perm != sorted(perm), labels=labels)
@@ -362,6 +396,8 @@ PROP = Prop(
     clauses=[
         Clause("from_predictions", check_pred, strategy=_pred_cases(), quick=500, thorough=5000, fuzz=20000,
                quick_shards=2, min_nontrivial=40, doc="entry [i,j] = total weight, class order"),
+        Clause("many_classes", check_many, kind="enum", cases=_many_class_cases, quick_shards=4, shards=8,
+               min_nontrivial=10, doc="12-300 (thorough: -1000) classes from labels / predictions"),
         Clause("renderings", check_render, strategy=_render_cases(), quick=300, thorough=3000,
                quick_shards=2, min_nontrivial=30, doc="dict / DataFrame / lists give one matrix"),
         Clause("one_vs_all", check_ova, strategy=_ova_cases(), quick=300, thorough=3000,
@@ -373,4 +409,4 @@ PROP = Prop(
                  "class names avoid NUL characters (NumPy strips trailing NULs from str arrays)"],
 )
 
-RULE_EXTRA = ("float matrices scaled by 1e-11..1e12 with tolerances relative to the matrix's population; independence of rates from the overall scale.")
+RULE_EXTRA = ("matrices stored as uint8 / int16 / int32 with entries up to the dtype maximum; clause many_classes: 12-300 (thorough: up to 1000) classes built from labels and predictions; float matrices scaled by 1e-11..1e12 with tolerances relative to the matrix's population; independence of rates from the overall scale.")
